@@ -948,3 +948,37 @@ End Model.
 Arguments GOk {A} a.
 Arguments GNil {A}.
 Arguments GErr {A} e.
+
+(** ** schema.go NewSchema, resource.go RelationshipDefinition.validate / ResourceType.validate,
+    resolvers.go AttributeDefinition.validate and the resolvers' validate: which schema definitions
+    are accepted.  A definition: per resource type its name, its attributes (name, has a resolver)
+    and its relationships (name, what the Resolver field holds).  The Go loops range over maps and
+    return the first error they meet; whether there is one does not depend on the order. *)
+Inductive rel_kind :=
+| RKNone                        (* Resolver == nil *)
+| RKLib (has_resolve : bool)    (* ToOne- / ToManyRelationshipResolver, Resolve != nil *)
+| RKCustom.                     (* another implementation of RelationshipResolver: not looked into *)
+Record type_def := { td_name : bytes; td_attrs : list (bytes * bool); td_rels : list (bytes * rel_kind) }.
+
+Definition reserved_name (n : bytes) : bool := bytes_eqb n s_id || bytes_eqb n s_type.
+
+(** one iteration of the attributes loop of ResourceType.validate: [true] = no error *)
+Definition attr_def_ok (rels : list (bytes * rel_kind)) (a : bytes * bool) : bool :=
+  if reserved_name (fst a) then false
+  else if existsb (fun r => bytes_eqb (fst r) (fst a)) rels then false
+  else if negb (member_name_ok (fst a)) then false
+  else snd a.
+(** one iteration of the relationships loop *)
+Definition rel_def_ok (r : bytes * rel_kind) : bool :=
+  if reserved_name (fst r) then false
+  else if negb (member_name_ok (fst r)) then false
+  else match snd r with
+       | RKNone => false
+       | RKLib has_resolve => has_resolve
+       | RKCustom => true
+       end.
+Definition type_def_ok (t : type_def) : bool :=
+  forallb (attr_def_ok (td_rels t)) (td_attrs t) && forallb rel_def_ok (td_rels t).
+(** NewSchema returns no error *)
+Definition new_schema_ok (d : list type_def) : bool :=
+  forallb (fun t => if negb (member_name_ok (td_name t)) then false else type_def_ok t) d.
